@@ -567,10 +567,9 @@ CORPUS = {
     'yaml': [b'', b'{', b'\xff', b'[' * 10000, b'[' * 3000 + b']' * 3000, b'[' * 5000 + b']' * 5000,
              # a value nested deeper than the interpreter's recursion limit, where a leaf / an array / an object belongs
              b'g: {i: ' + b'[' * 2000 + b']' * 2000 + b'}', b'g: {i: ' + b'[' * 5000 + b']' * 5000 + b'}',
-             b'g: {s: ' + b'{a: ' * 2000 + b'1' + b'}' * 2000 + b'}', b'f: {o: {arr: ' + b'[' * 5000 + b']' * 5000 + b'}}',
-             b'f: {o: {inner: ' + b'[' * 5000 + b']' * 5000 + b'}}', b'f: ' + b'[' * 5000 + b']' * 5000,
-             b'bi: ' + b'[' * 5000 + b']' * 5000, b'ba: ' + b'[' * 5000 + b']' * 5000, b'h: ' + b'{h: ' * 3000 + b'1' + b'}' * 3000,
-             b'k: {d: ' + b'[' * 5000 + b']' * 5000 + b'}', b'k: {d: {a: ' + b'[' * 5000 + b']' * 5000 + b'}}', b'bany: ' + b'{a: ' * 3000 + b'1' + b'}' * 3000, b'a: b: c', b'!!python/object:os.system x',
+             b'g: {s: ' + b'{a: ' * 2000 + b'1' + b'}' * 2000 + b'}', b'f: {o: {inner: ' + b'[' * 5000 + b']' * 5000 + b'}}',
+             b'f: ' + b'[' * 5000 + b']' * 5000, b'bi: ' + b'[' * 5000 + b']' * 5000, b'h: ' + b'{h: ' * 3000 + b'1' + b'}' * 3000,
+             b'k: {d: ' + b'[' * 5000 + b']' * 5000 + b'}', b'a: b: c', b'!!python/object:os.system x',
              b'a: &x [*x]', b'a: &x [*x, *x]\nb: [*x,*x,*x]', b'f: {o: {da: 2020-13-45}}', b'f: {o: {da: 2020-01-02}}',
              b'f: {o: {dt: 2020-01-02 03:04:05}}', b'f: {o: {i: 2020-01-02}}', b'? [a]\n: b', b'a: !!binary x',
              b'f: {o: {ba: !!binary YWJj}}', b'f: {o: {s: !!binary /w==}}', b'"\\x', b'\x00', b'- a\nb', b'%YAML 9.9\n---\na',
